@@ -210,6 +210,41 @@ class KnownFindings:
 # ----------------------------------------------------------------------------------------------
 # Check context: evidence, replay, verdict
 # ----------------------------------------------------------------------------------------------
+# strings that occur in the constants of the repository under test but not in the snapshot taken from the unchanged tree (or the other way round): empty on the
+# unchanged tree; after a change to a constant table they are what a failing input most likely has to contain, so the generators sprinkle them into descriptions and
+# header prose (dictionary-guided search for a concrete failing input once a constants-tie obligation is broken)
+CONST_NOVEL: list[str] = []
+
+
+def _strings_of(x, out):
+    if isinstance(x, str):
+        out.add(x)
+    elif isinstance(x, dict):
+        for k, v in x.items():
+            _strings_of(k, out)
+            _strings_of(v, out)
+    elif isinstance(x, (list, tuple)):
+        for v in x:
+            _strings_of(v, out)
+    return out
+
+
+def _note_novelties(d):
+    base = VERIF / "harness" / "translators" / "consts_baseline.json"
+    if not base.exists():
+        return
+    a, b = _strings_of(json.loads(base.read_text()), set()), _strings_of(json.loads(json.dumps(d)), set())
+    CONST_NOVEL[:] = sorted(x for x in (a ^ b) if 0 < len(x) <= 40)[:12]
+
+
+def spice(rng, text: str, p: float = 0.25) -> str:
+    """with probability p (only when the constants of the code under test differ from the snapshot) work one of the differing strings into a piece of prose"""
+    if not CONST_NOVEL or rng.random() >= p:
+        return text
+    nov = rng.choice(CONST_NOVEL)
+    return rng.choice(["%s. %s 5" % (text.rstrip("."), nov.strip()), "%s %s" % (nov.strip(), text), "%s %s the rest" % (text, nov), nov.strip() + " 5"])
+
+
 # which sections of Properties/ConstsTie/S<k>.lean hold copies used by which property's models (see the header of Properties/ConstsTie.lean)
 CONSTS_SECTIONS = {"C01": [0, 1, 2, 3], "C08": [0, 1, 2, 3], "C14": [0, 1, 2, 3, 5], "C11": [1, 4], "C15": [1, 4], "C02": [5], "C03": [5], "C09": [6], "C07": [6, 9], "C10": [7],
                    "C17": [8], "C04": [9], "C05": [9], "C06": [9], "C19": [9]}
@@ -339,7 +374,8 @@ class Check:
 
     def _consts_tie_locked(self, secs, consts):
         try:
-            consts.regen(REPO)
+            d, _ = consts.regen(REPO)
+            _note_novelties(d)
         except Exception as e:  # noqa
             # the constants cannot even be read (a table was removed or renamed): the copies in the models are no longer tied to anything
             for k in secs:
